@@ -40,9 +40,10 @@ struct Synth {
     bool Pfx; Fx *fx;                          // rRecurp: the object exists only while Pfx is true
     int mode; int depth;                       // depth declares rDepends(mode)
     int preset0, preset1, preset2;             // ports named like the selector followed by one of its values
+    int env_mode;                              // declared before the array 'env', whose name it starts with
     bool osc2_on; Osc *osc2;                   // toggle named like its sub-tree, default depends on the preset, object exists only while on
     bool Pbank; Bank *bank;                    // rRecurp over rRecurs: "/bank/slots1/kind" depends on "/Pbank" two levels up
-    Synth() : preset(0), gain(30), cutoff(0.5f), Poscenabled(false), Pvoices(true), Pfx(false), fx(nullptr), mode(0), depth(7), preset0(4), preset1(5), preset2(6), osc2_on(false), osc2(nullptr), Pbank(false), bank(nullptr) { apply_preset(); }
+    Synth() : preset(0), gain(30), cutoff(0.5f), Poscenabled(false), Pvoices(true), Pfx(false), fx(nullptr), mode(0), depth(7), preset0(4), preset1(5), preset2(6), env_mode(0), osc2_on(false), osc2(nullptr), Pbank(false), bank(nullptr) { apply_preset(); }
     ~Synth() { delete fx; delete bank; delete osc2; }
     void set_osc2(bool on) { if (on && !osc2) osc2 = new Osc; if (!on && osc2) { delete osc2; osc2 = nullptr; } osc2_on = on; }
     Synth(const Synth &) = delete;
@@ -71,8 +72,11 @@ struct Unit {
 // dependency, and a component enabled from inside through rSelf(..., rEnabledBy(enabled)) (doc/Guide.adoc, "enable self by port")
 struct Filter { int cutoff; Filter() : cutoff(64) {} static const rtosc::Ports ports; };
 struct Comp { int x; bool enabled; Comp() : x(0), enabled(false) {} static const rtosc::Ports ports; };
-struct Voice { bool enabled; int mode, detune; Filter filter; Comp comp; Voice() : enabled(false), mode(0), detune(0) {} static const rtosc::Ports ports; };
-struct Deps { Unit units[2]; int master; bool enabled; Voice voice; Deps() : master(100), enabled(false) {} static const rtosc::Ports ports; };
+struct Comp2 { int gain; bool on; Comp2() : gain(0), on(true) {} static const rtosc::Ports ports; };   // enabled from inside by a two-letter toggle that is on by default (so its line is usually absent)
+struct Lane { bool on; int vol; Lane() : on(false), vol(5) {} static const rtosc::Ports ports; };   // top-level directory enabled from inside by a two-letter toggle, plain macro ports
+struct Eq { int alpha, beta, gamma, filter_cutoff; Eq() : alpha(0), beta(0), gamma(0), filter_cutoff(64) {} static const rtosc::Ports ports; };   // a table without enumerations: looked up by its perfect hash
+struct Voice { bool enabled; int mode, detune; Filter filter; Comp comp; Comp2 comp2; Voice() : enabled(false), mode(0), detune(0) {} static const rtosc::Ports ports; };
+struct Deps { Unit units[2]; int master; bool enabled; Voice voice; Lane lane; Eq eq; Deps() : master(100), enabled(false) {} static const rtosc::Ports ports; };
 
 #define rObject Osc
 inline const rtosc::Ports Osc::ports = {
@@ -128,6 +132,7 @@ inline const rtosc::Ports Synth::ports = {
         [](const char *m, rtosc::RtData &d) { Synth *o = (Synth *)d.obj; if (*rtosc_argument_string(m)) { int v = rtosc_argument(m, 0).i; if (v < 0) v = 0; if (v > 2) v = 2; o->preset = v; o->apply_preset(); d.broadcast(d.loc, "i", o->preset); } else d.reply(d.loc, "i", o->preset); }},
     rParamI(gain, rLinear(0, 127), rDefaultDepends(preset), rPresets(30, 127, 64), "gain (preset dependent default)"),
     rParamF(cutoff, rLinear(0, 1), rDefaultDepends(preset), rPresets(0.5, 0.9, 0.125), "cutoff (preset dependent default)"),
+    rParamI(env_mode, rLinear(0, 3), rDefault(0), "declared before the array whose name it starts with"),
     rArrayI(env, 3, rLinear(0, 100), rDefaultDepends(preset), rPreset(0, [3x0]), rPreset(1, [10 20 30]), rPreset(2, [3x5]), "envelope (preset dependent default)"),
     rToggle(Poscenabled, rDefault(false), "enables osc/"),
     rRecur(osc, rEnabledBy(Poscenabled), "oscillator, pruned while disabled"),
@@ -190,6 +195,28 @@ inline const rtosc::Ports Comp::ports = {
     {"enabled::T:F", rProp(parameter) rDefault(false) rDoc("switching the component on gives a fresh component"), NULL, OTOG(Comp, enabled, o->enabled = on; if (on) o->x = 0)},
 };
 #undef rObject
+#define rObject Eq
+inline const rtosc::Ports Eq::ports = {
+    rParamI(alpha, rLinear(0, 9), rDefault(0), "first port of a hashed table"),
+    rParamI(beta, rLinear(0, 9), rDefault(0), "beta"),
+    rParamI(gamma, rLinear(0, 9), rDefault(0), "gamma"),
+    rParamI(filter_cutoff, rLinear(0, 127), rDefault(64), "filter cutoff"),
+};
+#undef rObject
+#define rObject Lane
+inline const rtosc::Ports Lane::ports = {
+    rSelf(Lane, rEnabledBy(on)),
+    rToggle(on, rDefault(false), "this lane is in use"),
+    rParamI(vol, rLinear(0, 9), rDefault(5), "volume"),
+};
+#undef rObject
+#define rObject Comp2
+inline const rtosc::Ports Comp2::ports = {
+    rSelf(Comp2, rEnabledBy(on)),
+    {"gain::i", rProp(parameter) rMap(min, 0) rMap(max, 9) rDefault(0) rDoc("parameter of a component whose enabling toggle is on by default"), NULL, OINT(Comp2, gain, o->gain = CLAMP(v, 0, 9))},
+    {"on::T:F", rProp(parameter) rDefault(true) rDoc("switching the component on gives a fresh component"), NULL, OTOG(Comp2, on, o->on = on; if (on) o->gain = 0)},
+};
+#undef rObject
 #define rObject Voice
 inline const rtosc::Ports Voice::ports = {
     // dependants first, as in Unit
@@ -198,12 +225,15 @@ inline const rtosc::Ports Voice::ports = {
     {"mode::i", rProp(parameter) rMap(min, 0) rMap(max, 3) rDefault(0) rDoc("mode: resets detune and switches the filter off"), NULL, OINT(Voice, mode, o->mode = CLAMP(v, 0, 3); o->detune = 0; o->enabled = false)},
     rRecur(filter, rEnabledBy(enabled), "filter, enabled by the voice's toggle"),
     rRecur(comp, "component enabled from inside"),
+    rRecur(comp2, "component enabled from inside, on by default"),
 };
 #undef rObject
 #define rObject Deps
 inline const rtosc::Ports Deps::ports = {
     rRecurs(units, 2, "units"),
     rRecur(voice, rEnabledBy(enabled), rDepends(master), "voice: enabled by the root toggle, declared to depend on master"),
+    rRecur(lane, "lane: enabled from inside"),
+    rRecur(eq, "a hashed table"),
     {"master::i", rProp(parameter) rMap(min, 0) rMap(max, 200) rDefault(100) rDoc("master: resets the voice's detune"), NULL, OINT(Deps, master, o->master = CLAMP(v, 0, 200); o->voice.detune = 0)},
     {"enabled::T:F", rProp(parameter) rDefault(false) rDoc("enables the voice (fresh when switched on)"), NULL, OTOG(Deps, enabled, o->enabled = on; if (on) o->voice = Voice())},
 };
@@ -286,6 +316,7 @@ inline const std::vector<Param> &synth_params() {
     P.push_back({"/preset0", 1, 'i', [](void *o, int) { return vi(S(o)->preset0); }, [](void *, int) { return vi(4); }, yes, 0, 9, 0, {}});
     P.push_back({"/preset1", 1, 'i', [](void *o, int) { return vi(S(o)->preset1); }, [](void *, int) { return vi(5); }, yes, 0, 9, 0, {}});
     P.push_back({"/preset2", 1, 'i', [](void *o, int) { return vi(S(o)->preset2); }, [](void *, int) { return vi(6); }, yes, 0, 9, 0, {}});
+    P.push_back({"/env_mode", 1, 'i', [](void *o, int) { return vi(S(o)->env_mode); }, [](void *, int) { return vi(0); }, yes, 0, 3, 0, {}});
 #undef S
     return P;
 }
@@ -322,6 +353,14 @@ inline const std::vector<Param> &deps_params() {
     P.push_back({"/voice/filter/cutoff", 1, 'i', [](void *o, int) { return vi(D(o)->voice.filter.cutoff); }, [](void *, int) { return vi(64); }, [](void *o) { return D(o)->enabled && D(o)->voice.enabled; }, 0, 127, 0, {}});
     P.push_back({"/voice/comp/enabled", 1, 'T', [](void *o, int) { return vb(D(o)->voice.comp.enabled); }, [](void *, int) { return vb(false); }, [](void *o) { return D(o)->enabled && D(o)->voice.comp.enabled; }, 0, 1, 0, {}});
     P.push_back({"/voice/comp/amount", 1, 'i', [](void *o, int) { return vi(D(o)->voice.comp.x); }, [](void *, int) { return vi(0); }, [](void *o) { return D(o)->enabled && D(o)->voice.comp.enabled; }, 0, 9, 0, {}});
+    P.push_back({"/voice/comp2/on", 1, 'T', [](void *o, int) { return vb(D(o)->voice.comp2.on); }, [](void *, int) { return vb(true); }, von, 0, 1, 0, {}});
+    P.push_back({"/voice/comp2/gain", 1, 'i', [](void *o, int) { return vi(D(o)->voice.comp2.gain); }, [](void *, int) { return vi(0); }, [](void *o) { return D(o)->enabled && D(o)->voice.comp2.on; }, 0, 9, 0, {}});
+    P.push_back({"/lane/on", 1, 'T', [](void *o, int) { return vb(D(o)->lane.on); }, [](void *, int) { return vb(false); }, yes, 0, 1, 0, {}});
+    P.push_back({"/lane/vol", 1, 'i', [](void *o, int) { return vi(D(o)->lane.vol); }, [](void *, int) { return vi(5); }, [](void *o) { return D(o)->lane.on; }, 0, 9, 0, {}});
+    P.push_back({"/eq/alpha", 1, 'i', [](void *o, int) { return vi(D(o)->eq.alpha); }, [](void *, int) { return vi(0); }, yes, 0, 9, 0, {}});
+    P.push_back({"/eq/beta", 1, 'i', [](void *o, int) { return vi(D(o)->eq.beta); }, [](void *, int) { return vi(0); }, yes, 0, 9, 0, {}});
+    P.push_back({"/eq/gamma", 1, 'i', [](void *o, int) { return vi(D(o)->eq.gamma); }, [](void *, int) { return vi(0); }, yes, 0, 9, 0, {}});
+    P.push_back({"/eq/filter_cutoff", 1, 'i', [](void *o, int) { return vi(D(o)->eq.filter_cutoff); }, [](void *, int) { return vi(64); }, yes, 0, 127, 0, {}});
 #undef D
 #undef U
     return P;
